@@ -256,7 +256,7 @@ def draw_problem(ck, rng, s, start):
         return o, p, np.zeros(n)
     want_neg = start in ("neg", "reset")
     box = 2.0 if fam != "rosen" else 1.5
-    for _ in range(60):
+    for _ in range(300):
         x = rng.uniform(-box, box, n)
         g = np.asarray(o["gj"](p, x))
         H = np.asarray(o["Hj"](p, x))
@@ -279,7 +279,9 @@ def draw_config(rng, s, fscale):
     cfg["maxiter"] = int(rng.choice([0, 1, 2, 5, 30], p=[0.06, 0.2, 0.2, 0.3, 0.24]))
     cfg["xtol"] = float(rng.choice([1e-5, 1e-8, 1e-3]))
     if s["absdelta"]:
-        cfg["absdelta"] = float(10 ** rng.uniform(-7, -1) * fscale)
+        # mostly tight; sometimes so loose that it is met while the line search still halves
+        lo, hi = ((-7, -1) if rng.random() < 0.65 else (-1, 1))
+        cfg["absdelta"] = float(10 ** rng.uniform(lo, hi) * fscale)
     cfg["miniter"] = int(rng.choice([0, 0, 1, 3]))
     if s["erf"]:
         cfg["energy_reduction_factor"] = float(rng.choice([0.1, 0.1, 0.5, 0.01]))
@@ -470,9 +472,9 @@ def _case(ck, i):
     # (d) trust region: iterate sequence by maxiter = 0..M
     if s["trust"]:
         tf = get_trust(ck, s)
-        M = int(rng.choice([3, 6, 10]))
-        trmax = float(rng.choice([1000.0, 2.0, 0.5]))
-        tr0 = float(min(rng.choice([1.0, 0.1, 0.3]), 0.5 * trmax))
+        M = int(rng.choice([4, 8, 12]))
+        trmax = float(rng.choice([1000.0, 20.0, 2.0, 0.5]))
+        tr0 = float(min(rng.choice([1.0, 0.1, 0.3, 3.0, 10.0]), 0.5 * trmax))
         gtol = float(rng.choice([1e-4, 1e-8]))
         desc["trust"] = dict(M=M, trmax=trmax, tr0=tr0, gtol=gtol)
 
